@@ -202,27 +202,10 @@ theorem range_encode_decode (c1 r1 c2 r2 : Nat) (abs : Bool)
       rangeRefToCoordinates s = .ok ((c1 : Int), (r1 : Int), (c2 : Int), (r2 : Int)) := by
   have e1 := cell_encode_eq c1 r1 abs hc1.1 hc1.2 hr1.1 hr1.2
   have e2 := cell_encode_eq c2 r2 abs hc2.1 hc2.2 hr2.1 hr2.2
-  have hd : IsDol (if abs then ['$'] else []) := by cases abs <;> simp [IsDol]
+  have s1 := cell_encode_shape c1 r1 abs hc1.1 hc1.2 hr1.1 hr1.2
+  have s2 := cell_encode_shape c2 r2 abs hc2.1 hc2.2 hr2.1 hr2.2
   refine ⟨_, by unfold coordinatesToRangeRef; simp only [e1, e2]; rfl, ?_⟩
-  have f1 := filter_dollar_encoded _ (numToName c1) _ (itoaAux r1) hd hd (numToName_letters c1)
-    (itoaAux_digits r1)
-  have f2 := filter_dollar_encoded _ (numToName c2) _ (itoaAux r2) hd hd (numToName_letters c2)
-    (itoaAux_digits r2)
-  have nc : ∀ (c r : Nat), ∀ x ∈ numToName c ++ itoaAux r, isColon x = false := by
-    intro c r x hx
-    rcases List.mem_append.mp hx with hx | hx
-    · exact isLetter_not_colon (numToName_letters c x hx)
-    · exact isDigit_not_colon (itoaAux_digits r x hx)
-  have d1 := decode_of_shape (cell_encode_shape c1 r1 false hc1.1 hc1.2 hr1.1 hr1.2)
-  have d2 := decode_of_shape (cell_encode_shape c2 r2 false hc2.1 hc2.2 hr2.1 hr2.2)
-  simp only [Bool.false_eq_true, if_false, List.nil_append, List.append_nil] at d1 d2
-  have fc : List.filter (fun c => !isDollar c) [':'] = [':'] := by decide
-  unfold rangeRefToCoordinates
-  rw [List.filter_append, List.filter_append, f1, f2, fc]
-  have e : numToName c1 ++ itoaAux r1 ++ [':'] ++ (numToName c2 ++ itoaAux r2) =
-      (numToName c1 ++ itoaAux r1) ++ ':' :: (numToName c2 ++ itoaAux r2) := by simp
-  rw [e, splitColon_two _ _ (nc c1 r1) (nc c2 r2)]
-  simp only [d1, d2]
+  exact (rangeRef_ok_iff _ _ _ _ _).mpr ⟨c1, r1, c2, r2, rfl, rfl, rfl, rfl, _, _, by simp, s1, s2⟩
 
 /-! ## `JoinCellName` / `SplitCellName` agree with the cell codecs -/
 
@@ -302,14 +285,32 @@ theorem split_is_syntactic :
 
 /-! ## Exact acceptance of `rangeRefToCoordinates` -/
 
-/-- **exact acceptance of the range decoder**: `rangeRefToCoordinates ref` succeeds
-with `(c1, r1, c2, r2)` iff `ref` is `A:B` or `A:B:<anything>` where `A` and `B`
-contain no colon and, after EVERY `$` in them has been deleted, are strict A1
-references inside the grid denoting `(c1, r1)` and `(c2, r2)`. -/
-theorem range_decode_accepts_iff (ref : List Char) (c1 r1 c2 r2 : Int) :
-    rangeRefToCoordinates ref = .ok (c1, r1, c2, r2) ↔
-      ∃ n1 m1 n2 m2 : Nat, c1 = n1 ∧ r1 = m1 ∧ c2 = n2 ∧ r2 = m2 ∧ RangeLoose ref n1 m1 n2 m2 :=
-  rangeRef_ok_iff ref c1 r1 c2 r2
+/-- **exact acceptance of the range decoder, full strength** (after the repair of
+`rngapi:accept-non-a1:*`): for ALL strings, `rangeRefToCoordinates ref` succeeds
+with `(c1, r1, c2, r2)` iff `ref` is exactly `cell:cell` with both cells strict A1
+references inside the grid (each with its own optional absolute markers) denoting
+`(c1, r1)` and `(c2, r2)`. -/
+theorem range_decode_accepts_iff (ref : List Char) (c1 r1 c2 r2 : Nat) :
+    rangeRefToCoordinates ref = .ok ((c1 : Int), (r1 : Int), (c2 : Int), (r2 : Int)) ↔
+      parseRangeStrict ref = some (c1, r1, c2, r2) := by
+  rw [parseRangeStrict_iff, rangeRef_ok_iff]
+  constructor
+  · rintro ⟨n1, m1, n2, m2, h1, h2, h3, h4, h⟩
+    have : c1 = n1 := by omega
+    have : r1 = m1 := by omega
+    have : c2 = n2 := by omega
+    have : r2 = m2 := by omega
+    subst_vars; exact h
+  · intro h; exact ⟨c1, r1, c2, r2, rfl, rfl, rfl, rfl, h⟩
+
+/-- strictness: whatever the range decoder maps to coordinates is a strict
+`cell:cell` reference denoting exactly these corners, all inside the grid -/
+theorem range_rejects_non_range (ref : List Char) (c1 r1 c2 r2 : Int)
+    (h : rangeRefToCoordinates ref = .ok (c1, r1, c2, r2)) :
+    ∃ n1 m1 n2 m2 : Nat, c1 = n1 ∧ r1 = m1 ∧ c2 = n2 ∧ r2 = m2 ∧
+      parseRangeStrict ref = some (n1, m1, n2, m2) := by
+  obtain ⟨n1, m1, n2, m2, rfl, rfl, rfl, rfl, hs⟩ := (rangeRef_ok_iff ref _ _ _ _).mp h
+  exact ⟨n1, m1, n2, m2, rfl, rfl, rfl, rfl, (parseRangeStrict_iff ref _ _ _ _).mpr hs⟩
 
 /-- completeness: every strict range reference `cell:cell` (each corner with its
 own optional absolute markers, any casing, leading zeros) is accepted and decoded
@@ -318,55 +319,30 @@ the encoder's output. -/
 theorem range_strict_accepted (ref : List Char) (c1 r1 c2 r2 : Nat)
     (h : parseRangeStrict ref = some (c1, r1, c2, r2)) :
     rangeRefToCoordinates ref = .ok ((c1 : Int), (r1 : Int), (c2 : Int), (r2 : Int)) :=
-  (rangeRef_ok_iff ref _ _ _ _).mpr ⟨c1, r1, c2, r2, rfl, rfl, rfl, rfl,
-    rangeLoose_of_strict ((parseRangeStrict_iff ref c1 r1 c2 r2).mp h)⟩
+  (range_decode_accepts_iff ref c1 r1 c2 r2).mpr h
 
-/-- strictness holds only for corner *values*: whatever is accepted lies inside the grid -/
+/-- whatever is accepted lies inside the grid -/
 theorem range_decode_in_grid (ref : List Char) (c1 r1 c2 r2 : Int)
     (h : rangeRefToCoordinates ref = .ok (c1, r1, c2, r2)) :
     1 ≤ c1 ∧ c1 ≤ (Facts.MaxColumns : Int) ∧ 1 ≤ r1 ∧ r1 ≤ (Facts.TotalRows : Int) ∧
     1 ≤ c2 ∧ c2 ≤ (Facts.MaxColumns : Int) ∧ 1 ≤ r2 ∧ r2 ≤ (Facts.TotalRows : Int) := by
-  obtain ⟨n1, m1, n2, m2, rfl, rfl, rfl, rfl, _, _, _, _, _, _, _, hs1, hs2⟩ :=
+  obtain ⟨n1, m1, n2, m2, rfl, rfl, rfl, rfl, _, _, _, hs1, hs2⟩ :=
     (rangeRef_ok_iff ref _ _ _ _).mp h
   obtain ⟨_, _, _, _, _, _, _, _, _, _, _, _, a1, a2, _, a3, a4⟩ := hs1
   obtain ⟨_, _, _, _, _, _, _, _, _, _, _, _, b1, b2, _, b3, b4⟩ := hs2
   omega
 
-/-- **finding (open)**: the range decoder is NOT strict. It maps strings that are not
-`cell:cell` references to coordinates: a `$` anywhere (`A$$1:B2`, `A1$:$$B2$`), and
-anything after a second colon (`A1:B2:junk`, and — through `MergeCell(sheet,
-"D1:E2", "F9")`, which concatenates its two cell-name arguments with `:` — a
-whole range passed as a cell name, the second argument being ignored). Public APIs
-that take cell names and decode them through it (MergeCell, UnmergeCell) therefore
-accept strings that are not A1 references: oracle signatures
-`rngapi:accept-non-a1:stray-dollar`, `rngapi:accept-non-a1:extra-colon-part`. -/
-theorem finding_range_decode_not_strict :
-    (rangeRefToCoordinates ['A', '$', '$', '1', ':', 'B', '2'] = .ok (1, 1, 2, 2) ∧
-      parseRangeStrict ['A', '$', '$', '1', ':', 'B', '2'] = none) ∧
-    (rangeRefToCoordinates ['A', '1', ':', 'B', '2', ':', 'j', 'u', 'n', 'k'] = .ok (1, 1, 2, 2) ∧
-      parseRangeStrict ['A', '1', ':', 'B', '2', ':', 'j', 'u', 'n', 'k'] = none) ∧
-    (rangeRefToCoordinates (['D', '1', ':', 'E', '2'] ++ [':'] ++ ['F', '9']) = .ok (4, 1, 5, 2) ∧
-      parseA1 ['D', '1', ':', 'E', '2'] = none) := by
-  refine ⟨⟨by decide +kernel, by decide +kernel⟩, ⟨by decide +kernel, by decide +kernel⟩,
-    ⟨by decide +kernel, by decide +kernel⟩⟩
-
-/-- what remains true of the lenient decoder (`…_partial`: the missing hypothesis is
-"`ref` has exactly one colon and no `$` outside the two optional positions of each
-corner", i.e. `parseRangeStrict ref ≠ none`): on strict references it is exact. -/
-theorem range_decode_strict_partial (ref : List Char) (c1 r1 c2 r2 : Int)
-    (hstrict : (parseRangeStrict ref).isSome = true) :
-    rangeRefToCoordinates ref = .ok (c1, r1, c2, r2) ↔
-      ∃ n1 m1 n2 m2 : Nat, c1 = n1 ∧ r1 = m1 ∧ c2 = n2 ∧ r2 = m2 ∧
-        parseRangeStrict ref = some (n1, m1, n2, m2) := by
-  obtain ⟨⟨a, b, c, d⟩, hp⟩ := Option.isSome_iff_exists.mp hstrict
-  have hacc := range_strict_accepted ref a b c d hp
-  constructor
-  · intro h
-    rw [hacc] at h
-    simp only [Except.ok.injEq, Prod.mk.injEq] at h
-    exact ⟨a, b, c, d, h.1.symm, h.2.1.symm, h.2.2.1.symm, h.2.2.2.symm, hp⟩
-  · rintro ⟨n1, m1, n2, m2, rfl, rfl, rfl, rfl, hq⟩
-    exact range_strict_accepted ref n1 m1 n2 m2 hq
+/-- regression witnesses: the references the unrepaired decoder accepted (`$`
+anywhere, a third part, a range glued to a cell by `MergeCell`) are rejected, the
+absolute range `$A$1:$B$2` keeps working (decided on literals: a regression test,
+labelled as such). -/
+theorem range_reject_witnesses :
+    (∃ e, rangeRefToCoordinates ['A', '$', '$', '1', ':', 'B', '2'] = .error e) ∧
+    (∃ e, rangeRefToCoordinates ['A', '1', ':', 'B', '2', ':', 'j', 'u', 'n', 'k'] = .error e) ∧
+    (∃ e, rangeRefToCoordinates (['D', '1', ':', 'E', '2'] ++ [':'] ++ ['F', '9']) = .error e) ∧
+    rangeRefToCoordinates ['$', 'A', '$', '1', ':', '$', 'B', '$', '2'] = .ok (1, 1, 2, 2) := by
+  refine ⟨⟨.cellName, by decide +kernel⟩, ⟨.param, by decide +kernel⟩, ⟨.param, by decide +kernel⟩,
+    by decide +kernel⟩
 
 /-! ## Spellings: every accepted spelling of a cell addresses the same cell -/
 
@@ -439,29 +415,34 @@ theorem spellings_example :
 spelling before touching the worksheet: P `prepareCell` (all setters), G
 `getCellStringFunc` (GetCellValue/Formula/Type), D direct decode (GetCellStyle,
 SetCellStyle, AddPicture/GetPictures, form controls), R `GetCellRichText`,
-H-set / H-get (hyperlinks, behind a `SplitCellName` gate), C-add / C-del (comments). -/
+H-set / H-get (hyperlinks, behind a `SplitCellName` gate), C-add / C-del (comments,
+canonical reference since the repair). -/
 
-/-- **full strength, six paths**: every accepted spelling is mapped by every path to
+/-- **full strength, eight paths**: every accepted spelling is mapped by every path to
 the canonical key of the cell it denotes — the grid position `(c, r)` or the
-canonical relative reference of `(c, r)`. -/
+canonical relative reference of `(c, r)` (comments included since the repair of
+`spell:comment-raw-ref`). -/
 theorem paths_canonical (s : List Char) (ci ri : Int) (h : cellNameToCoordinates s = .ok (ci, ri)) :
     ∃ canon, coordinatesToCellName ci ri false = .ok canon ∧
       pathPrepare s = some (.xy ci ri) ∧ pathGetString s = some (.ref canon) ∧
       pathDirect s = some (.xy ci ri) ∧ pathRichGet s = some (.xy ci ri) ∧
-      pathLinkSet s = some (.ref canon) ∧ pathLinkGet s = some (.ref canon) := by
+      pathLinkSet s = some (.ref canon) ∧ pathLinkGet s = some (.ref canon) ∧
+      pathCommentAdd s = some (.ref canon) ∧ pathCommentDel s = some (.ref canon) := by
   obtain ⟨_, _, _, _, canon, hcanon, hdec⟩ := cell_decode_encode s ci ri h
   have hu := upper_same_cell s ci ri h
   obtain ⟨q, hq⟩ := split_ok_of_decode h
   have hm : mergeParse s = some canon := by
     unfold mergeParse apiRef getterRef setterRef
     simp only [hu, hcanon]
-  refine ⟨canon, hcanon, ?_, ?_, ?_, ?_, ?_, ?_⟩
+  refine ⟨canon, hcanon, ?_, ?_, ?_, ?_, ?_, ?_, ?_, ?_⟩
   · unfold pathPrepare; simp only [hm, hdec]
   · unfold pathGetString; simp only [hm, hdec, hcanon]
   · unfold pathDirect; simp only [h]
   · unfold pathRichGet pathPrepare; simp only [hm, hdec]
   · unfold pathLinkSet; simp only [hq, hm]
   · unfold pathLinkGet; simp only [hq, h, hcanon]
+  · unfold pathCommentAdd; simp only [h, hcanon]
+  · unfold pathCommentDel pathCommentAdd; simp only [h, hcanon]
 
 /-- **strictness per path**: each of the paths (and the validity check of `AddComment`)
 accepts a string iff it is a strict A1 reference inside the grid — no path widens
@@ -473,7 +454,8 @@ theorem paths_accept_iff_a1 (s : List Char) :
     ((pathRichGet s).isSome = true ↔ ∃ c r, parseA1 s = some (c, r)) ∧
     ((pathLinkSet s).isSome = true ↔ ∃ c r, parseA1 s = some (c, r)) ∧
     ((pathLinkGet s).isSome = true ↔ ∃ c r, parseA1 s = some (c, r)) ∧
-    ((pathCommentAdd s).isSome = true ↔ ∃ c r, parseA1 s = some (c, r)) := by
+    ((pathCommentAdd s).isSome = true ↔ ∃ c r, parseA1 s = some (c, r)) ∧
+    ((pathCommentDel s).isSome = true ↔ ∃ c r, parseA1 s = some (c, r)) := by
   have back : (∃ c r, parseA1 s = some (c, r)) → ∃ ci ri, cellNameToCoordinates s = .ok (ci, ri) := by
     rintro ⟨c, r, hp⟩; exact ⟨_, _, spec_sound s c r hp⟩
   have viaMerge : ∀ {canon}, mergeParse s = some canon → ∃ c r, parseA1 s = some (c, r) := by
@@ -483,7 +465,7 @@ theorem paths_accept_iff_a1 (s : List Char) :
     intro ci ri hd
     obtain ⟨cn, rn, hp, _, _⟩ := rejects_non_a1 s ci ri hd
     exact ⟨cn, rn, hp⟩
-  refine ⟨⟨?_, ?_⟩, ⟨?_, ?_⟩, ⟨?_, ?_⟩, ⟨?_, ?_⟩, ⟨?_, ?_⟩, ⟨?_, ?_⟩, ⟨?_, ?_⟩⟩
+  refine ⟨⟨?_, ?_⟩, ⟨?_, ?_⟩, ⟨?_, ?_⟩, ⟨?_, ?_⟩, ⟨?_, ?_⟩, ⟨?_, ?_⟩, ⟨?_, ?_⟩, ⟨?_, ?_⟩⟩
   · intro h; unfold pathPrepare at h
     split at h
     · rename_i canon hm; exact viaMerge hm
@@ -526,63 +508,51 @@ theorem paths_accept_iff_a1 (s : List Char) :
     obtain ⟨_, _, _, _, _, _, _, h1⟩ := paths_canonical s ci ri hd; simp [h1]
   · intro h; unfold pathCommentAdd at h
     split at h
-    · rename_i p hd; exact viaDirect (ci := p.1) (ri := p.2) hd
+    · rename_i c r hd; exact viaDirect hd
     · simp at h
   · intro hp; obtain ⟨ci, ri, hd⟩ := back hp
-    unfold pathCommentAdd; simp [hd]
+    obtain ⟨_, _, _, _, _, _, _, _, h1, _⟩ := paths_canonical s ci ri hd; simp [h1]
+  · intro h; unfold pathCommentDel pathCommentAdd at h
+    split at h
+    · rename_i c r hd; exact viaDirect hd
+    · simp at h
+  · intro hp; obtain ⟨ci, ri, hd⟩ := back hp
+    obtain ⟨_, _, _, _, _, _, _, _, _, h1⟩ := paths_canonical s ci ri hd; simp [h1]
 
-/-- **paired setters and getters, five families**: for any two accepted spellings
+/-- **paired setters and getters, six families**: for any two accepted spellings
 `s`, `t` of one cell, what a writer called with `s` stored is found by the matching
 reader called with `t` — value/int/formula/type (P/G), style and pictures (D/D),
-rich text (P/R), hyperlinks (H-set/H-get), and across families (P/D). -/
+rich text (P/R), hyperlinks (H-set/H-get), across families (P/D), and comments
+(AddComment/DeleteComment, full strength since the repair). -/
 theorem pairs_find (s t : List Char) (ci ri : Int)
     (hs : cellNameToCoordinates s = .ok (ci, ri)) (ht : cellNameToCoordinates t = .ok (ci, ri)) :
     pairFinds pathPrepare pathGetString s t = some true ∧
     pairFinds pathDirect pathDirect s t = some true ∧
     pairFinds pathPrepare pathRichGet s t = some true ∧
     pairFinds pathLinkSet pathLinkGet s t = some true ∧
-    pairFinds pathPrepare pathDirect s t = some true := by
-  obtain ⟨canon, hc, a1, a2, a3, a4, a5, a6⟩ := paths_canonical s ci ri hs
-  obtain ⟨canon', hc', b1, b2, b3, b4, b5, b6⟩ := paths_canonical t ci ri ht
+    pairFinds pathPrepare pathDirect s t = some true ∧
+    pairFinds pathCommentAdd pathCommentDel s t = some true := by
+  obtain ⟨canon, hc, a1, a2, a3, a4, a5, a6, a7, a8⟩ := paths_canonical s ci ri hs
+  obtain ⟨canon', hc', b1, b2, b3, b4, b5, b6, b7, b8⟩ := paths_canonical t ci ri ht
   rw [hc] at hc'
   cases hc'
   unfold pairFinds
-  simp only [a1, a2, a3, a4, a5, a6, b1, b2, b3, b4, b5, b6, Key.stored, hc]
+  simp only [a1, a2, a3, a4, a5, a6, a7, a8, b1, b2, b3, b4, b5, b6, b7, b8, Key.stored, hc]
   simp
 
-/-- comments, what is true (`…_partial`: the missing hypothesis is `s = t`, the two
-calls must use the *same spelling*): `DeleteComment(t)` finds the comment
-`AddComment(Cell: s)` stored iff `s` is accepted and `t` is literally `s`. -/
-theorem comment_pair_partial (s t : List Char) :
-    pairFinds pathCommentAdd pathCommentDel s t = some true ↔
-      (∃ ci ri, cellNameToCoordinates s = .ok (ci, ri)) ∧ s = t := by
-  unfold pairFinds pathCommentAdd pathCommentDel
-  cases hd : cellNameToCoordinates s with
-  | error e => simp
-  | ok p =>
-    simp only [Key.stored, Option.some.injEq, beq_iff_eq]
-    constructor
-    · intro h; exact ⟨⟨p.1, p.2, rfl⟩, h⟩
-    · intro h; exact h.2
-
-/-- **finding (open)**: comments are keyed by the raw spelling. `AddComment` with
-`Cell: "b2"` stores `Ref="b2"`; `DeleteComment(sheet, "B2")` — another accepted
-spelling of the same cell — compares `cmt.Ref != cell` as strings, does not find
-it and returns nil (and removes the VML shape by coordinates, leaving the comment
-without its shape); `GetComments` reports `Cell: "b2"`. Oracle signature
-`spell:comment-raw-ref`. -/
-theorem finding_comment_raw_ref :
-    cellNameToCoordinates ['b', '2'] = .ok (2, 2) ∧ cellNameToCoordinates ['B', '2'] = .ok (2, 2) ∧
-    pairFinds pathCommentAdd pathCommentDel ['b', '2'] ['B', '2'] = some false ∧
-    pairFinds pathCommentAdd pathCommentDel ['$', 'C', '$', '3'] ['C', '3'] = some false := by
-  refine ⟨by decide +kernel, by decide +kernel, by decide +kernel, by decide +kernel⟩
+/-- regression witnesses for the repaired `spell:comment-raw-ref`: `AddComment("b2")` /
+`DeleteComment("B2")` and `AddComment("$C$3")` / `DeleteComment("C3")` now meet
+(the general statement is the sixth conjunct of `pairs_find`). -/
+theorem comment_pair_witnesses :
+    pairFinds pathCommentAdd pathCommentDel ['b', '2'] ['B', '2'] = some true ∧
+    pairFinds pathCommentAdd pathCommentDel ['$', 'C', '$', '3'] ['C', '3'] = some true := by
+  refine ⟨by decide +kernel, by decide +kernel⟩
 
 /-! ## Cell-name APIs that decode through the range decoder (MergeCell, UnmergeCell) -/
 
-/-- what is true (`…_partial`: the missing hypothesis is that both arguments are A1
-references): `MergeCell(sheet, a, b)` with two strict A1 spellings stores a range
-reference that decodes to the sorted rectangle of the two denoted cells. -/
-theorem mergecell_strict_partial (a b : List Char) (c1 r1 c2 r2 : Nat)
+/-- `MergeCell(sheet, a, b)` with two strict A1 spellings stores a range reference
+that decodes to the sorted rectangle of the two denoted cells. -/
+theorem mergecell_strict (a b : List Char) (c1 r1 c2 r2 : Nat)
     (ha : parseA1 a = some (c1, r1)) (hb : parseA1 b = some (c2, r2)) :
     ∃ ref, mergeCellRef a b = some ref ∧
       rangeRefToCoordinates ref =
@@ -591,8 +561,7 @@ theorem mergecell_strict_partial (a b : List Char) (c1 r1 c2 r2 : Nat)
   have hB := shape_of_parseA1 hb
   have hdec : rangeRefToCoordinates (a ++ [':'] ++ b) =
       .ok ((c1 : Int), (r1 : Int), (c2 : Int), (r2 : Int)) :=
-    (rangeRef_ok_iff _ _ _ _ _).mpr ⟨c1, r1, c2, r2, rfl, rfl, rfl, rfl,
-      rangeLoose_of_strict ⟨a, b, by simp, hA, hB⟩⟩
+    (rangeRef_ok_iff _ _ _ _ _).mpr ⟨c1, r1, c2, r2, rfl, rfl, rfl, rfl, a, b, by simp, hA, hB⟩
   obtain ⟨_, _, _, _, _, _, _, _, _, _, _, _, a1, a2, _, a3, a4⟩ := hA
   obtain ⟨_, _, _, _, _, _, _, _, _, _, _, _, b1, b2, _, b3, b4⟩ := hB
   obtain ⟨x, y, z, w, hsort, hx, hy, hz, hw, _⟩ :=
@@ -602,17 +571,33 @@ theorem mergecell_strict_partial (a b : List Char) (c1 r1 c2 r2 : Nat)
   unfold mergeCellRef
   simp only [hdec, hsort, henc]
 
-/-- **finding (open)**: `MergeCell` / `UnmergeCell` take two *cell names* but decode
-`a + ":" + b` with the lenient range decoder: a range passed as the first cell name
-is accepted and the second argument silently ignored (`MergeCell(s, "D1:E2", "F9")`
-merges D1:E2), and `$` is accepted anywhere (`MergeCell(s, "A$$1", "B2")` merges
-A1:B2) — strings that are not A1 references are mapped to coordinates. Oracle
-signatures `rngapi:accept-non-a1:extra-colon-part`, `rngapi:accept-non-a1:stray-dollar`. -/
-theorem finding_mergecell_accepts_non_a1 :
-    (mergeCellRef ['D', '1', ':', 'E', '2'] ['F', '9'] = some ['D', '1', ':', 'E', '2'] ∧
-      parseA1 ['D', '1', ':', 'E', '2'] = none) ∧
-    (mergeCellRef ['A', '$', '$', '1'] ['B', '2'] = some ['A', '1', ':', 'B', '2'] ∧
-      parseA1 ['A', '$', '$', '1'] = none) := by
-  refine ⟨⟨by decide +kernel, by decide +kernel⟩, ⟨by decide +kernel, by decide +kernel⟩⟩
+/-- **strictness of `MergeCell` / `UnmergeCell`, full strength** (after the repair):
+they accept their two cell-name arguments iff BOTH are strict A1 references inside
+the grid — a range, a stray `$`, a trailing `:junk` in either argument is rejected. -/
+theorem mergecell_accepts_iff_a1 (a b : List Char) :
+    (mergeCellRef a b).isSome = true ↔
+      (∃ c r, parseA1 a = some (c, r)) ∧ (∃ c r, parseA1 b = some (c, r)) := by
+  constructor
+  · intro h
+    unfold mergeCellRef at h
+    split at h
+    · rename_i q hq
+      obtain ⟨c1, r1, c2, r2⟩ := q
+      obtain ⟨n1, m1, n2, m2, _, _, _, _, A, B, hab, hA, hB⟩ := (rangeRef_ok_iff _ _ _ _ _).mp hq
+      have hab' : a ++ ':' :: b = A ++ ':' :: B := by simpa using hab
+      obtain ⟨rfl, rfl⟩ := colon_cut_unique hab' (shape_nocolon hA) (shape_nocolon hB)
+      exact ⟨⟨n1, m1, parseA1_of_shape hA⟩, ⟨n2, m2, parseA1_of_shape hB⟩⟩
+    · simp at h
+  · rintro ⟨⟨c1, r1, ha⟩, ⟨c2, r2, hb⟩⟩
+    obtain ⟨ref, h, _⟩ := mergecell_strict a b c1 r1 c2 r2 ha hb
+    simp [h]
+
+/-- regression witnesses for the repaired `rngapi:accept-non-a1:*` -/
+theorem mergecell_reject_witnesses :
+    mergeCellRef ['D', '1', ':', 'E', '2'] ['F', '9'] = none ∧
+    mergeCellRef ['A', '$', '$', '1'] ['B', '2'] = none ∧
+    mergeCellRef ['H', '1'] ['I', '2', ':', 'j'] = none ∧
+    mergeCellRef ['$', 'b', '$', '2'] ['A', '0', '1'] = some ['A', '1', ':', 'B', '2'] := by
+  refine ⟨by decide +kernel, by decide +kernel, by decide +kernel, by decide +kernel⟩
 
 end XlModel.Props.C20
